@@ -51,6 +51,10 @@ func c03scalar(r *rand.Rand) interface{} {
 	case 1:
 		return r.Intn(2) == 0
 	case 2:
+		if r.Intn(5) == 0 {
+			// what NewMapJson yields under JsonUseNumber
+			return json.Number([]string{"12", "1.50", "-0", "1e3", "123456789012345678901234567890"}[r.Intn(5)])
+		}
 		return []float64{0, 1, -1.5, 1e21, 1e-7, 123456789.125, 3}[r.Intn(7)]
 	default:
 		return c03strs[r.Intn(len(c03strs))]
@@ -114,6 +118,26 @@ func c03gen(r *rand.Rand, depth int, st *c03stats) interface{} {
 		}
 		return l
 	}
+}
+
+func hasJSONNumber(v interface{}) bool {
+	switch t := v.(type) {
+	case json.Number:
+		return true
+	case map[string]interface{}:
+		for _, e := range t {
+			if hasJSONNumber(e) {
+				return true
+			}
+		}
+	case []interface{}:
+		for _, e := range t {
+			if hasJSONNumber(e) {
+				return true
+			}
+		}
+	}
+	return false
 }
 
 func scalarText(v interface{}) string {
@@ -263,7 +287,7 @@ func (c03) Case(c *core.Ctx) {
 				b, e := mxj.Map(m).XmlIndent(prefix, indent, tag...)
 				return "Map.XmlIndent", b, e
 			})
-		if len(tag) == 0 && r.Intn(3) == 0 {
+		if len(tag) == 0 && r.Intn(3) == 0 && !hasJSONNumber(m) { // (a JSON text round trip cannot keep float64 and json.Number leaves apart)
 			if jb, e := json.Marshal(m); e == nil {
 				c.Count("api:j2x.JsonToXml")
 				encs = append(encs, func() (string, []byte, error) { b, e := j2x.JsonToXml(jb); return "j2x.JsonToXml", b, e })
